@@ -31,10 +31,10 @@ CHECKS = {
          "QE reports are re-signed with the PCK key for every generated field value and checked against generated identities (masks of any content, wrong lengths, ordered levels with all statuses and past / future dates); verdict must equal the model; a signed identity that omits what an unsigned twin supplies must be rejected.",
          "Trusts the model's reading of mask application (report value AND mask == identity value).", "DESIGN.md §4 C07"),
  "C08": ("exploration", "reference model of policy validation over generated quotes x options, crash-freedom for malformed options (rapid + native fuzz)",
-         "Each option field independently unset / empty / equal / one bit off / wrong length, RTMR and AnyMrTd lists of every small shape, SVNs around their minimums and every single XFAM / TD_ATTRIBUTES bit; well-formed options must give exactly the model's verdict, malformed ones must not crash nor accept a quote that misses an expectation. Every pair of expectations (one met, one missed), options converted from a policy, and a state machine over one long-lived options value with in-place edits.",
+         "Each option field independently unset / empty / equal / one bit off / wrong length, RTMR and AnyMrTd lists of every small shape, SVNs around their minimums and every single XFAM / TD_ATTRIBUTES bit; well-formed options must give exactly the model's verdict, malformed ones must not crash nor accept a quote that misses an expectation. Every pair of expectations (one met, one missed), options converted from a policy, and a state machine over one long-lived options value with in-place edits; messages with a missing or resized field; a race-build companion validating different quotes at the same time.",
          "Fixed masks taken from the constants' documentation (XFAM fixed1 0x3 fixed0 0x6DBE7; TD_ATTRIBUTES bits 0,28,30,63).", "DESIGN.md §4 C08"),
  "C09": ("exploration", "differential testing against an independent reference codec + round trips (rapid, exhaustive truncation/boundary grids, native fuzz)",
-         "An own codec written from the Intel layout with literal offsets decides accept/reject and every field; parse-then-serialise must be the identity on accepted inputs and serialise-then-parse on well-formed messages. All truncation lengths and all boundary values of each size/type field (singly and in pairs) are enumerated; the rest is sampled and fuzzed. The parsed quote must be independent of the caller's buffer; messages whose byte strings share one buffer, nil / empty representations; returned bytes stay put while other messages are serialised.",
+         "An own codec written from the Intel layout with literal offsets decides accept/reject and every field; parse-then-serialise must be the identity on accepted inputs and serialise-then-parse on well-formed messages. All truncation lengths and all boundary values of each size/type field (singly and in pairs) are enumerated; the rest is sampled and fuzzed. The parsed quote must be independent of the caller's buffer; messages whose byte strings share one buffer, nil / empty representations; returned bytes stay put while other messages are serialised; a race-build companion serialises and parses several quotes at once; a GOARCH=386 companion repeats the size-field grids with a 32-bit int.",
          "Assumes header bytes 8-9 = pce_svn, 10-11 = qe_svn (tree's assignment).", "DESIGN.md §4 C09"),
  "C10": ("exploration", "crash/hang oracle over structure-aware mutants of every untrusted input kind at every entry point (rapid + one native fuzz target per entry point)",
          "All truncations and size-field boundary values, every single structural mutation of a valid message, arbitrary collateral / CRL / header responses served to an otherwise valid quote, arbitrary DER in the SGX extension; date spellings, CRL framings, distribution-point mixes, odd certificate kinds in issuer chains; the only oracle is 'returns a value or an error, no panic, no hang'.",
